@@ -110,8 +110,9 @@ def sx(t):
 def simple(t):
     return t[0] in ('m', 'break', 'continue', 'ret', 'goto', 'gotoval', 'block', 'skip', 'do')
 
-def to_c(t, ind=1, style=0):
-    """C text of a tree.  `style` varies spellings that denote the same tree (while/for, omitted else)."""
+def to_c(t, ind=1, style=0, safe=True):
+    """C text of a tree.  `style` varies spellings that denote the same tree (while/for, omitted else).  `safe`: an `if`
+    without `else` printed here cannot capture the `else` of an enclosing `if`."""
     p = '  ' * ind
     k = t[0]
     if k == 'skip':
@@ -129,30 +130,30 @@ def to_c(t, ind=1, style=0):
     if k == 'gotoval':
         return p + f'goto *&&L{t[1]};\n'
     if k == 'block':
-        return p + '{\n' + ''.join(to_c(x, ind + 1, style) for x in t[1]) + p + '}\n'
+        return p + '{\n' + ''.join(to_c(x, ind + 1, style, True) for x in t[1]) + p + '}\n'
     if k == 'if':
-        s = p + f'if (c({t[1]}))\n' + to_c(t[2], ind + 1, style)
-        if t[3][0] == 'skip' and simple(t[2]) and (t[1] + style) % 2 == 0:
+        s = p + f'if (c({t[1]}))\n' + to_c(t[2], ind + 1, style, False)
+        if t[3][0] == 'skip' and safe and (t[1] + style) % 2 == 0:
             return s
-        return s + p + 'else\n' + to_c(t[3], ind + 1, style)
+        return s + p + 'else\n' + to_c(t[3], ind + 1, style, safe)
     if k == 'for':
         i, c, n, body = t[1:]
         if i is None and n is None and c is not None and (c + style) % 2 == 0:
-            return p + f'while (c({c}))\n' + to_c(body, ind + 1, style)
+            return p + f'while (c({c}))\n' + to_c(body, ind + 1, style, safe)
         f = lambda v, fn: '' if v is None else f'{fn}({v})'
-        return p + f"for ({f(i, 'm')}; {f(c, 'c')}; {f(n, 'm')})\n" + to_c(body, ind + 1, style)
+        return p + f"for ({f(i, 'm')}; {f(c, 'c')}; {f(n, 'm')})\n" + to_c(body, ind + 1, style, safe)
     if k == 'do':
-        return p + 'do\n' + to_c(t[1], ind + 1, style) + p + f'while (c({t[2]}));\n'
+        return p + 'do\n' + to_c(t[1], ind + 1, style, True) + p + f'while (c({t[2]}));\n'
     if k == 'switch':
-        return p + f'switch (({t[1]})in({t[2]}))\n' + to_c(t[3], ind + 1, style)
+        return p + f'switch (({t[1]})in({t[2]}))\n' + to_c(t[3], ind + 1, style, safe)
     if k == 'case':
         lo, hi, s, lot, hit = t[1], t[2], t[3], t[4], t[5]
         head = f'case {lot}:' if lo == hi and lot == hit else f'case {lot} ... {hit}:'
-        return p + head + '\n' + to_c(s, ind + 1, style)
+        return p + head + '\n' + to_c(s, ind + 1, style, safe)
     if k == 'default':
-        return p + 'default:\n' + to_c(t[1], ind + 1, style)
+        return p + 'default:\n' + to_c(t[1], ind + 1, style, safe)
     if k == 'label':
-        return p + f'L{t[1]}:\n' + to_c(t[2], ind + 1, style)
+        return p + f'L{t[1]}:\n' + to_c(t[2], ind + 1, style, safe)
     raise ValueError(k)
 
 def children(t):
@@ -199,7 +200,8 @@ def size(t):
     return 1 + sum(size(c) for c in children(t))
 
 def depth(t):
-    return 1 + max([depth(c) for c in children(t)] or [0])
+    """nesting depth of control statements (if / loops / switch)"""
+    return (1 if t[0] in ('if', 'for', 'do', 'switch') else 0) + max([depth(c) for c in children(t)] or [0])
 
 def forms(t, acc=None):
     acc = acc if acc is not None else {}
@@ -506,12 +508,14 @@ def unit_source(fn_texts):
 def parse_runs(out):
     """harness stdout -> {i: (events, 'END'|'LIMIT'|'CRASH')}"""
     runs, cur, idx = {}, None, None
+    if isinstance(out, bytes):
+        out = out.decode(errors='replace')
     for l in out.splitlines():
         if l.startswith('== '):
             if idx is not None:
                 runs[idx] = (cur, 'CRASH')
             idx, cur = int(l[3:]), []
-        elif l in ('END', 'LIMIT'):
+        elif l in ('END', 'LIMIT', 'SPIN'):
             runs[idx] = (cur, l); idx = None
         elif idx is not None:
             cur.append(l)
@@ -615,7 +619,7 @@ def model_mrun(ctx, unit_trees, streams, fuel=40000):
 
 def agree(ev_impl, how_impl, ev_ref, finished_ref):
     """trace comparison honouring the event budget: a run cut at LIMIT must be a prefix-equal cut of the reference"""
-    if how_impl == 'LIMIT':
+    if how_impl in ('LIMIT', 'SPIN'):
         return ev_ref[:len(ev_impl)] == ev_impl and len(ev_ref) >= len(ev_impl)
     if how_impl == 'END':
         return finished_ref and ev_ref == ev_impl
@@ -964,7 +968,7 @@ def corpus_run(ctx, corr):
         path = os.path.join(d, fn)
         if fn.endswith('.c'):
             src = open(path).read()
-            m = re.search(r'/\* streams:\n(.*?)\*/', src, re.S)
+            m = re.search(r'streams:\n(.*?)\*/', src, re.S)
             streams = [[int(x) for x in l.split()] for l in m.group(1).strip().splitlines()] if m else [[]]
             b = build_unit(ctx, 'corpus_' + fn[:-2], src, streams, want_asm=False)
             corr.evaluations += 1
